@@ -171,15 +171,15 @@ def corr_objects_x(check, tier):
                                          'XmlDocument(validator=%s) read %s back as %r, sent %r' % (
                                              'soft' if soft else None, etree.tostring(doc).decode()[:200], d, want))
         lib.correspond(check, 'xmlx_enc', imports, 'nat * val * xnode',
-                       '(fun c => let \'(cid, v, t) := c in match enc spyne_leaf (cfg false None) UU %d (TRef cid) (cls_ns UU cid) '
+                       '(fun c => let \'(cid, v, t) := c in match enc spyne_leaf UU %d (TRef cid) (cls_ns UU cid) '
                        '(cls_name UU cid) v with Ok e => xnode_eqb (wire e) t | _ => false end)' % FUEL, enc_cases,
-                       show='(fun c : nat * val * xnode => let \'(cid, v, t) := c in enc spyne_leaf (cfg false None) UU %d (TRef cid) '
+                       show='(fun c : nat * val * xnode => let \'(cid, v, t) := c in enc spyne_leaf UU %d (TRef cid) '
                             '(cls_ns UU cid) (cls_name UU cid) v)' % FUEL)
         lib.correspond(check, 'xmlx_dec', imports, 'bool * nat * xnode * out val',
-                       '(fun c => let \'(soft, cid, t, o) := c in out_eqb val_eqb (from_element spyne_leaf (cfg soft None) UU %d '
+                       '(fun c => let \'(soft, cid, t, o) := c in out_eqb val_eqb (from_element spyne_leaf (cfg soft) UU %d '
                        '(TRef cid) t) o)' % FUEL, dec_cases,
                        show='(fun c : bool * nat * xnode * out val => let \'(soft, cid, t, o) := c in from_element spyne_leaf '
-                            '(cfg soft None) UU %d (TRef cid) t)' % FUEL)
+                            '(cfg soft) UU %d (TRef cid) t)' % FUEL)
         if ui == 0 and enc_cases:
             check.sample({'universe': X.jsonable(desc), 'case': enc_cases[0][1][:400]})
 
@@ -373,6 +373,7 @@ class World(object):
 # ------------------------------------------------------------------ correspondence: full requests through ServerBase
 def corr_calls(check, tier):
     from lxml import etree
+    from spyne.server.wsgi import WsgiApplication
     rng = check.rng
     n_worlds = 8 if tier == 'quick' else 60
     per_method = 2 if tier == 'quick' else 5
@@ -383,9 +384,13 @@ def corr_calls(check, tier):
                 app, plan = w.app(prot, val)
                 imports = IMPORTS_X + w.coq_defs(app)
                 cases = []
+                req_cases, resp_cases = [], []
+                sc = Z.make_spyne_client(app, WsgiApplication(app), prot)
                 for mi, m in enumerate(w.svc['methods']):
                     for _ in range(per_method):
                         call = gen_call(rng, w.desc, m)
+                        if m['style'] == 'wrapped':
+                            client_corr_case(check, w, app, sc, plan, prot, val, mi, m, call, req_cases, resp_cases)
                         doc, body = request_doc(rng, w.desc, w.classes, app, prot, m, call)
                         docs = [(doc, 'as written')]
                         for _ in range(2):
@@ -430,8 +435,88 @@ def corr_calls(check, tier):
                                % (G_PROTO[prot], G_VMODE[val], FUEL), cases,
                                show='(fun c : bool * xnode * ufun * rsp => let \'(sv, doc, f, o) := c in server spyne_leaf %s %s '
                                     '(fun _ => sv) UU SV %d f doc)' % (G_PROTO[prot], G_VMODE[val], FUEL))
+                lib.correspond(check, 'call_client_request', imports, 'nat * option (list val) * list val * xnode',
+                               '(fun c => let \'(i, hv, args, t) := c in match nth_error (s_methods SV) i with Some m => '
+                               'match client_request spyne_leaf %s UU SV %d i m hv args with Ok e => xnode_eqb (wire e) t | _ => false end '
+                               '| None => false end)' % (G_PROTO[prot], FUEL), req_cases,
+                               show='(fun c : nat * option (list val) * list val * xnode => let \'(i, hv, args, t) := c in '
+                                    'match nth_error (s_methods SV) i with Some m => client_request spyne_leaf %s UU SV %d i m hv args '
+                                    '| None => Crash OtherExn end)' % (G_PROTO[prot], FUEL))
+                lib.correspond(check, 'call_client_response', imports, 'nat * xnode * out (val * option (list val))',
+                               '(fun c => let \'(i, t, o) := c in match nth_error (s_methods SV) i with Some m => '
+                               'out_eqb (fun a b => val_eqb (fst a) (fst b) && olist_eqb (snd a) (snd b)) '
+                               '(client_response spyne_leaf %s %s UU SV %d i m t) o | None => false end)'
+                               % (G_PROTO[prot], G_VMODE[val], FUEL), resp_cases,
+                               show='(fun c : nat * xnode * out (val * option (list val)) => let \'(i, t, o) := c in '
+                                    'match nth_error (s_methods SV) i with Some m => client_response spyne_leaf %s %s UU SV %d i m t '
+                                    '| None => Crash OtherExn end)' % (G_PROTO[prot], G_VMODE[val], FUEL))
         if wi == 0:
             check.sample({'service': X.jsonable(w.svc)})
+
+
+def client_corr_case(check, w, app, sc, plan, prot, val, mi, m, call, req_cases, resp_cases):
+    """the Spyne client (RemoteProcedureBase.get_out_object / get_out_string / get_in_object) against
+    Call.client_request / client_response: the request it writes and what it reads from the response"""
+    from lxml import etree
+    desc, classes = w.desc, w.classes
+    d = X.method_descriptor(app, m['name'])
+    plan_call(plan, desc, classes, m, call)
+    hdr = None
+    if call['in_header'] is not None and m['in_header']:
+        hdr = [X.to_native(desc, classes, v) for v in call['in_header']]
+    sc.set_options(out_header=hdr)
+    proc = getattr(sc.service, m['name'])
+    from spyne.model.fault import Fault
+    try:
+        r = ('ok', proc(*[X.to_native(desc, classes, a) for a in call['args']]))
+    except Fault as e:
+        r = ('vfault',) if e.faultcode == 'Client.ValidationError' else ('crash', 'OtherExn', 'Fault:' + str(e.faultcode))
+    except Exception as e:
+        r = ('crash', EXN.get(type(e).__name__, 'OtherExn'), type(e).__name__)
+    sent = getattr(proc, 'sent', None)
+    if sent is None:
+        check.mismatch('call_client_request', 'the Spyne client wrote no request for %s %r: %r' % (m['name'], call['args'], r))
+        return
+    g_hv = gopt(call['in_header'] if hdr is not None else None, lambda hh: glist([X.g_val(v) for v in hh]))
+    req_cases.append(('(%d%%nat, %s, %s, %s)' % (mi, g_hv, glist([X.g_val(a) for a in call['args']]), X.g_xml(etree.fromstring(sent))),
+                      '%s/%s %s args %r hdr %r -> %s' % (prot, val, m['name'], call['args'], call['in_header'], sent.decode()[:400])))
+    check.count(('client_req', prot, val, sent))
+    received = getattr(proc, 'received', None)
+    if received is None or not received.strip():
+        return
+    try:
+        rtree = etree.fromstring(received)
+    except etree.XMLSyntaxError:
+        return
+    if r[0] == 'ok':
+        rets = m['returns']
+        keys = list(d.out_message._type_info.keys())
+        if not rets:
+            got = ('none',)
+        elif len(rets) == 1:
+            got = X.field_from_native(desc, classes, rets[0], r[1])
+        else:
+            got = ('list', [X.field_from_native(desc, classes, rr, getattr(r[1], k, None)) for rr, k in zip(rets, keys)])
+        ih = proc.ctx.in_header
+        if ih is None:
+            got_h = None
+        elif len(m['out_header']) == 1:
+            got_h = [X.from_native(desc, classes, ('ref', m['out_header'][0]), ih)]
+        else:
+            got_h = [X.from_native(desc, classes, ('ref', c), x) for c, x in zip(m['out_header'], ih)]
+        if not X.in_universe(got) or (got_h is not None and not all(X.in_universe(v) for v in got_h)):
+            check.mismatch('call_client_response', 'the Spyne client returned a value outside the universe: %r / %r' % (got, got_h))
+            return
+        g_o = '(Ok (%s, %s))' % (X.g_val(got), gopt(got_h, lambda hh: glist([X.g_val(v) for v in hh])))
+    elif r[0] == 'vfault':
+        g_o = 'VFault'
+    else:
+        if r[2].startswith('Fault:'):
+            return                     # the server answered with a fault: not a response document of this method
+        g_o = '(Crash %s)' % r[1]
+    resp_cases.append(('(%d%%nat, %s, %s)' % (mi, X.g_xml(rtree), g_o),
+                       '%s/%s %s response %s -> %r' % (prot, val, m['name'], received.decode()[:400], r[:2])))
+    check.count(('client_resp', prot, val, received))
 
 
 def mutate_envelope(rng, env):
